@@ -61,6 +61,7 @@ class Check:
         self.explanation = ''
         self.exhaustive = None
         self.machinery_error = None
+        self.categories = {}
 
     # -- bookkeeping ------------------------------------------------------
     def add_tlc(self, run, label=None):
@@ -100,7 +101,8 @@ class Check:
             hit[0] += 1
             return False
         self.n_violations += 1
-        if len(self.violations) < 12:
+        self.categories[what.split(' | ')[0][:70]] = self.categories.get(what.split(' | ')[0][:70], 0) + 1
+        if len(self.violations) < int(os.environ.get('VERIF_MAX_REPLAYS', '12')):
             self.violations.append({'property': self.prop, 'what': what, 'case': case})
         return True
 
@@ -152,6 +154,8 @@ class Check:
         if self.n_violations:
             for v, p in zip(self.violations, paths):
                 print('VIOLATION property=%s replay=%s  # %s' % (self.prop, p, v['what'][:300]))
+            for k, n in sorted(self.categories.items(), key=lambda kv: -kv[1])[:15]:
+                print('  %6d x %s' % (n, k))
             if self.n_violations > len(paths):
                 print('(%d further violating cases not written out)' % (self.n_violations - len(paths)))
             return 1
